@@ -183,3 +183,69 @@ func VerifC16Link() {
 	}
 	verifAssert("window", maxStringLength-1 == 89 && checksumLength == 6)
 }
+
+const verifCharset = "qpzry9x8gf2tvdw0s3jn54khce6mua7l" // BIP-173
+
+func verifSymbolOf(c byte) byte {
+	idx := byte(255)
+	for i := 0; i < 32; i++ {
+		if verifCharset[i] == c {
+			idx = byte(i)
+		}
+	}
+	return idx
+}
+
+func verifLower16(c byte) byte {
+	if c >= 'A' && c <= 'Z' {
+		return c + 32
+	}
+	return c
+}
+
+// VerifC16Accept: what Decode accepts is a code word, whatever route the string takes through the
+// decoder. For every byte string of length n with a one-character prefix (s[1] the only separator):
+// if Decode returns no error then the case is uniform, every data character is a charset character
+// and the BIP-173 syndrome of the lower-cased string - computed with the reference step from the
+// reference charset - is exactly 1. (With n-2 >= 6 arbitrary symbols the polymod state ranges over all
+// 2^30 values, so the acceptance test itself is compared on every state.) The real bech32Polymod,
+// bech32VerifyChecksum, validateCase and charset are executed, nothing is summarised.
+//
+//verif:run quick n=8
+//verif:run thorough n=10,11
+//verif:timeout 300
+func VerifC16Accept(n int) {
+	s := verifString("s", n)
+	verifAssume(s[1] == '1')
+	for i := 2; i < n; i++ {
+		verifAssume(s[i] != '1')
+	}
+	hasUpper, hasLower, charsOK := false, false, true
+	c := verifStep(1, verifLower16(s[0])>>5)
+	c = verifStep(c, 0)
+	c = verifStep(c, verifLower16(s[0])&31)
+	for i := 0; i < n; i++ {
+		if s[i] >= 'A' && s[i] <= 'Z' {
+			hasUpper = true
+		}
+		if s[i] >= 'a' && s[i] <= 'z' {
+			hasLower = true
+		}
+		if i >= 2 {
+			v := verifSymbolOf(verifLower16(s[i]))
+			if v == 255 {
+				charsOK = false
+				v = 0
+			}
+			c = verifStep(c, v)
+		}
+	}
+	_, _, err := Decode(s)
+	if err != nil {
+		return
+	}
+	verifReach("accepted")
+	verifAssert("accepted.uniform.case", !(hasUpper && hasLower))
+	verifAssert("accepted.charset", charsOK)
+	verifAssert("accepted.syndrome.one", c == 1)
+}
